@@ -234,6 +234,7 @@ func runC19(c *core.Ctx) error {
 	if err := c19InferHistories(c); err != nil {
 		return err
 	}
+	c19Converters(c)
 	if err := c19BindSection(c); err != nil {
 		return err
 	}
@@ -1142,5 +1143,108 @@ func c19BindWitnesses(c *core.Ctx) {
 			return nil
 		})
 		c.KnownWitness("C19/nilable-slot-empty-list-becomes-absent", err == nil && !panicked && after != "{ s4c [ ] }", "struct{L []string}{L: []string{}} with L optional: after Marshal/Unmarshal the value reads "+after)
+	}
+}
+
+// ---------------------------------------------------------------------------------------------
+// custom converters (bindnode options): a Go type of the caller's own per scalar kind, in every kind of slot
+
+type cvBool struct{ B bool }
+type cvInt struct{ I int64 }
+type cvFloat struct{ F float64 }
+type cvString struct{ S string }
+type cvBytes struct{ B []byte }
+
+// c19Converters: for each scalar kind bound through a Typed…Converter to a Go struct of the caller's own, as a struct
+// field, a list element, a typed-map value and a keyed-union member: what is assembled is what Unwrap holds and what
+// Wrap shows, and Marshal → Unmarshal through dag-cbor reproduces it.
+func c19Converters(c *core.Ctx) {
+	r := c.Rand.Fork()
+	type kindCase struct {
+		kind   string
+		scalar schema.Type
+		goT    reflect.Type
+		opt    bindnode.Option
+		gen    func() core.Val
+	}
+	kinds := []kindCase{
+		{"bool", schema.SpawnBool("X"), reflect.TypeOf(cvBool{}), bindnode.TypedBoolConverter((*cvBool)(nil),
+			func(b bool) (interface{}, error) { return &cvBool{b}, nil }, func(v interface{}) (bool, error) { return v.(*cvBool).B, nil }),
+			func() core.Val { return core.Bool(r.Bool()) }},
+		{"int", schema.SpawnInt("X"), reflect.TypeOf(cvInt{}), bindnode.TypedIntConverter((*cvInt)(nil),
+			func(i int64) (interface{}, error) { return &cvInt{i}, nil }, func(v interface{}) (int64, error) { return v.(*cvInt).I, nil }),
+			func() core.Val { return core.Int(int64(r.Intn(2000)) - 1000) }},
+		{"float", schema.SpawnFloat("X"), reflect.TypeOf(cvFloat{}), bindnode.TypedFloatConverter((*cvFloat)(nil),
+			func(f float64) (interface{}, error) { return &cvFloat{f}, nil }, func(v interface{}) (float64, error) { return v.(*cvFloat).F, nil }),
+			func() core.Val { return core.Float(float64(r.Intn(1000))/8 + 0.5) }},
+		{"string", schema.SpawnString("X"), reflect.TypeOf(cvString{}), bindnode.TypedStringConverter((*cvString)(nil),
+			func(s string) (interface{}, error) { return &cvString{s}, nil }, func(v interface{}) (string, error) { return v.(*cvString).S, nil }),
+			func() core.Val { return core.Str(string(core.GenStrBytes(r, core.GenCfg{ValidUTF8: true}))) }},
+		{"bytes", schema.SpawnBytes("X"), reflect.TypeOf(cvBytes{}), bindnode.TypedBytesConverter((*cvBytes)(nil),
+			func(b []byte) (interface{}, error) { return &cvBytes{append([]byte{}, b...)}, nil }, func(v interface{}) ([]byte, error) { return v.(*cvBytes).B, nil }),
+			func() core.Val { return core.Bytes(r.Bytes(r.Intn(6))) }},
+	}
+	for iter := 0; iter < c.Pick(60, 6000); iter++ {
+		kc := kinds[r.Intn(len(kinds))]
+		slot := []string{"struct-field", "list-element", "map-value", "union-member"}[r.Intn(4)]
+		var root schema.Type
+		var goT reflect.Type
+		var input core.Val
+		switch slot {
+		case "struct-field":
+			root = schema.SpawnStruct("Root", []schema.StructField{schema.SpawnStructField("F", "X", false, false), schema.SpawnStructField("G", "X", false, false)}, schema.SpawnStructRepresentationMap(nil))
+			goT = reflect.StructOf([]reflect.StructField{{Name: "F", Type: kc.goT}, {Name: "G", Type: kc.goT}})
+			input = core.Map(core.KV{K: []byte("F"), V: kc.gen()}, core.KV{K: []byte("G"), V: kc.gen()})
+		case "list-element":
+			root = schema.SpawnList("Root", "X", false)
+			goT = reflect.SliceOf(kc.goT)
+			input = core.List(kc.gen(), kc.gen(), kc.gen())
+		case "map-value":
+			root = schema.SpawnMap("Root", "String", "X", false)
+			goT = reflect.StructOf([]reflect.StructField{{Name: "Keys", Type: reflect.TypeOf([]string{})}, {Name: "Values", Type: reflect.MapOf(reflect.TypeOf(""), kc.goT)}})
+			input = core.Map(core.KV{K: []byte("k1"), V: kc.gen()}, core.KV{K: []byte("k2"), V: kc.gen()})
+		default:
+			root = schema.SpawnUnion("Root", []schema.TypeName{"X"}, schema.SpawnUnionRepresentationKeyed(map[string]schema.TypeName{"x": "X"}))
+			goT = reflect.StructOf([]reflect.StructField{{Name: "X", Type: reflect.PointerTo(kc.goT)}})
+			input = core.Map(core.KV{K: []byte("X"), V: kc.gen()})
+		}
+		ts, errs := schema.SpawnTypeSystem(schema.SpawnString("String"), kc.scalar, root)
+		if errs != nil {
+			continue
+		}
+		caseID := fmt.Sprintf("c19.converter %s %s INPUT %s", kc.kind, slot, input.Term())
+		c.Count(caseID, true)
+		c.Dist("converter:" + kc.kind + ":" + slot)
+		var got, rewrapped, roundtrip string
+		err, panicked, pv := core.Catch(func() error {
+			proto := bindnode.Prototype(reflect.New(goT).Interface(), ts.TypeByName("Root"), kc.opt)
+			nb := proto.NewBuilder()
+			if err := core.Assemble(nb, input, r); err != nil {
+				return err
+			}
+			n := nb.Build()
+			got = termOf(n)
+			gv := bindnode.Unwrap(n)
+			rewrapped = termOf(bindnode.Wrap(gv, ts.TypeByName("Root"), kc.opt))
+			var buf bytes.Buffer
+			if err := dagcbor.Encode(n.(schema.TypedNode).Representation(), &buf); err != nil {
+				return fmt.Errorf("encode: %w", err)
+			}
+			nb2 := proto.Representation().NewBuilder()
+			if err := dagcbor.Decode(nb2, bytes.NewReader(buf.Bytes())); err != nil {
+				return fmt.Errorf("decode: %w", err)
+			}
+			roundtrip = termOf(nb2.Build())
+			return nil
+		})
+		switch {
+		case panicked:
+			c.Fail("C19/converter-panics", core.Replay{Kind: "oracle", Case: caseID, Impl: fmt.Sprint(pv), Expected: input.Term()})
+		case err != nil:
+			c.Fail("C19/converter-build-refused", core.Replay{Kind: "oracle", Case: caseID, Impl: err.Error(), Expected: input.Term()})
+		case got != input.Term() || rewrapped != input.Term() || roundtrip != input.Term():
+			c.Fail("C19/converter-value-differs", core.Replay{Kind: "oracle", Case: caseID, Impl: "built " + got + " | wrap(unwrap) " + rewrapped + " | decode(encode) " + roundtrip, Expected: input.Term(),
+				Detail: "a scalar bound through a custom converter: what was assembled is not what the node / the Go value / the round trip shows"})
+		}
 	}
 }
